@@ -21,7 +21,7 @@ DepLists(vt) == { <<Dep("g", "x", vt, "", "", "", FALSE, <<>>)>>,
                   <<Dep("g", "x", <<>>, "", "", "", FALSE, <<>>), Dep("g", "x", vt, "test-jar", "", "", FALSE, <<>>), Dep("g", "z", <<>>, "", "", "", FALSE, <<>>)>>,
                   <<Dep("g", "x", vt, "", "", "", FALSE, <<>>), Dep("g", "k", <<L("1.0")>>, "", "", "", FALSE, <<>>), Dep("g", "x", <<L("9.9")>>, "", "", "runtime", FALSE, <<>>)>> }
 ParentDeps == { <<>>, <<Dep("g", "y", <<L("1.5")>>, "", "", "", FALSE, <<>>), Dep("g", "p", <<R("a")>>, "", "", "runtime", FALSE, <<>>)>> }
-MgmtLists == { <<>>, <<Dep("g", "x", <<L("7.0")>>, "", "", "provided", FALSE, <<"q:q">>)>>,
+MgmtLists == { <<>>, <<Dep("g", "x", <<L("7.0")>>, "", "", "provided", FALSE, <<"q:q">>), Dep("g", "y", <<L("2.5")>>, "", "", "", FALSE, <<"m:m">>)>>,
                <<Dep("g", "z", <<R("a")>>, "", "", "", FALSE, <<>>), Dep("b", "bom", <<L("1.0")>>, "pom", "", "import", FALSE, <<>>)>> }
 Pm(g, a, v, parent, props, deps, mgmt, profiles, gdecl, vdecl) ==
   [g |-> g, a |-> a, v |-> v, parent |-> parent, props |-> props, deps |-> deps, mgmt |-> mgmt, profiles |-> profiles, gdecl |-> gdecl, vdecl |-> vdecl]
@@ -31,7 +31,9 @@ VARIABLES kind, item
 Init == kind = "start" /\ item = <<>>
 Lineages ==
   { << Pm(IF inheritV THEN "" ELSE "g", "proj", IF inheritV THEN "" ELSE "5.0", IF np = 0 THEN 0 ELSE 2, cp, cd, cm,
-          IF prof = 1 THEN <<[act |-> act, props |-> <<P("a", <<L("6.6")>>)>>, deps |-> <<Dep("g", "prof", <<R("a")>>, "", "", "", FALSE, <<>>)>>, mgmt |-> <<>>]>> ELSE <<>>,
+          \* an explicitly activated profile next to an activeByDefault one (the default one counts only when no other profile of the POM is active)
+          IF prof = 1 THEN <<[act |-> act, props |-> <<P("a", <<L("6.6")>>)>>, deps |-> <<Dep("g", "prof", <<R("a")>>, "", "", "", FALSE, <<>>)>>, mgmt |-> <<>>],
+                             [act |-> [NoAct EXCEPT !.kind = "default"], props |-> <<P("b", <<L("5.5")>>)>>, deps |-> <<Dep("g", "dflt", <<L("1.0")>>, "", "", "", FALSE, <<>>)>>, mgmt |-> <<>>]>> ELSE <<>>,
           IF inheritV THEN "" ELSE "g", IF inheritV THEN "" ELSE "5.0") >>
      \o (IF np = 0 THEN <<>> ELSE << Pm("pg", "parent", "3.3", IF np = 2 THEN 3 ELSE 0, pp, pd, pm,
           IF prof = 2 THEN <<[act |-> act, props |-> <<P("b", <<L("7.7")>>)>>, deps |-> <<>>, mgmt |-> <<Dep("g", "z", <<L("0.1")>>, "", "", "", FALSE, <<>>)>>]>> ELSE <<>>, "pg", "3.3") >>)
